@@ -92,6 +92,14 @@ func effect(c *ast.CallExpr) string {
 		return "with_clause"
 	case suf("CachedViews.Get"), suf(".GetTemporaryTable"):
 		return "get_copy"
+	case suf("CachedViews.GetWithInternalId"), suf(".GetTemporaryTableWithInternalId"):
+		return "get_copy_with_ids"
+	case fn == "cacheViewFromFile":
+		return "cache_load"
+	case suf("CachedViews.Dispose"):
+		return "dispose_cached"
+	case suf(".AddAlias"):
+		return "add_alias"
 	case suf(".Where"):
 		return "where"
 	case fn == "Evaluate", fn == "EvalRowValue":
@@ -178,7 +186,7 @@ var harmless = map[string]bool{
 	"CreateFilePath": true, "InStrSliceWithCaseInsensitive": true, "createTableStatement.GetBaseExpr": true,
 	"view.Header.TableColumnNames()": true, "s.(*value.String).Raw": true, "b.(*value.Boolean).Raw": true,
 	"strings.EqualFold": true, "proc.ReferenceScope.Tx.Flags.Repository": true, "defer": true,
-	"queryScope.Tx.Flags.ExportOptions.Copy": true, "h.Len": true,
+	"queryScope.Tx.Flags.ExportOptions.Copy": true, "h.Len": true, "fileIdentifier.GetBaseExpr": true,
 }
 
 type walker struct{ out []string }
@@ -240,6 +248,10 @@ func condToken(e ast.Expr) string {
 		return "if(notFile){"
 	case s == "ctx.Err()!=nil":
 		return "if(ctx){"
+	case s == "useInternalId":
+		return "if(ids){"
+	case s == "forUpdate":
+		return "if(forUpdate){"
 	case s == "e==nil":
 		return "if(ok){"
 	case s == "0<cnt", s == "0<cnts[i]":
@@ -472,6 +484,9 @@ func main() {
 		w.stmts(procCase(ex, typ))
 		o.WriteString(fmt.Sprintf("/-- the case `parser.%s` of Processor.ExecuteStatement -/\ndef fxProc%s : List String :=\n  %s\n\n", typ, typ, leanList(w.out)))
 	}
+	lw := &walker{}
+	lw.stmts(findFunc(parse("lib/query/load_view.go"), "", "loadObjectFromFile").Body.List)
+	o.WriteString("/-- `loadObjectFromFile` (lib/query/load_view.go): what happens between the cache and the statement -/\ndef fxLoadObjectFromFile : List String :=\n  " + leanList(lw.out) + "\n\n")
 	hw := &walker{}
 	hu := findFunc(h, "Header", "Update")
 	hw.stmts(hu.Body.List)
